@@ -14,6 +14,8 @@ var needCapOne = map[string]string{
 }
 
 func runC19(p *Prog, r *Report) {
+	optionTypeAgreement(p, r, "C19.12/option-type-agreement")
+	gatedOptionFlags(p, r, "C19.13/gated-option-flags")
 	r.Describe("C19.2/E10c", "every make(chan T, n) fed by an option value has n >= 0 (>= 1 where a blocking re-send under the lock depends on it)")
 	e10Capacity(p, r, "C19.2/E10c", needCapOne)
 	r.Floor("C19.2/E10c", "e10.option_fed_make_chan", 25)
